@@ -40,6 +40,9 @@ EXC = {'ValueError': ['valueError'], 'IndexError': ['indexError'], 'KeyError': [
        'LookupError': ['indexError', 'keyError'], 'ArithmeticError': ['zeroDivisionError']}
 
 
+_ZEROS_OK = []
+
+
 def check_decimal_zeros(comp, node):
     """`Py.Small.decimalZeros` (PyPrelude.lean) must be the decimal-digit runs of the `unicodedata` of this
     interpreter (the one pybufrkit runs under), and int() must have the 4300-digit default limit; otherwise
@@ -49,6 +52,8 @@ def check_decimal_zeros(comp, node):
     import sys
     import unicodedata
     from harness import py2lean
+    if _ZEROS_OK:
+        return
     path = os.path.join(py2lean.VERIF, 'lean', 'BufrModel', 'Gen', 'PyPrelude.lean')
     text = open(path, encoding='utf-8').read()
     m = re.search(r'def decimalZeros : List Nat := \[(.*?)\]', text, re.S)
@@ -64,6 +69,7 @@ def check_decimal_zeros(comp, node):
     limit = getattr(sys, 'get_int_max_str_digits', lambda: None)()
     if limit != 4300:
         comp.bad(node, 'int(): sys.get_int_max_str_digits() is %r, Py.Small.intMaxStrDigits is 4300' % (limit,))
+    _ZEROS_OK.append(True)      # the table does not change within one process
 
 
 class SmallCompiler(FuncCompiler):
